@@ -1,6 +1,7 @@
 package props
 
 import (
+	"bytes"
 	stdjson "encoding/json"
 	"fmt"
 	"strings"
@@ -234,7 +235,67 @@ func c03Mutate(c *fw.Ctx, corpus [][]byte) []byte {
 	return x
 }
 
+// c03ConcurrentLimit: one goroutine detects (detector calls recorded), another
+// keeps changing the limit. Every detector of one walk must be given the same
+// (header, limit), and the header must be the first `limit` bytes for THAT limit.
+func c03ConcurrentLimit(c *fw.Ctx, rounds int) {
+	st := c03Setup(nil)
+	defer st.restore()
+	seeds := lib.Seeds()
+	var ins [][]byte
+	for _, s := range seeds {
+		if len(s) > 200 {
+			ins = append(ins, s)
+		}
+	}
+	ins = append(ins, bytes.Repeat([]byte("a,b,c\n"), 800), []byte("["+strings.Repeat("1,", 3000)+"1]"))
+	stop := make(chan struct{})
+	done := make(chan struct{})
+	go func() {
+		defer close(done)
+		vals := []uint32{0, 64, 100, 1000, 3072, 4096, 100000}
+		for i := 0; ; i++ {
+			select {
+			case <-stop:
+				return
+			default:
+			}
+			mimetype.SetLimit(vals[i%len(vals)])
+		}
+	}()
+	for it := 0; it < rounds; it++ {
+		x := ins[c.Rand.Intn(len(ins))]
+		st.trace = st.trace[:0]
+		key := fw.InputKey(x, 0, "Detect/concurrent-SetLimit")
+		pl := c03Payload{In: x, Entry: "concurrent-limit", InQ: fw.Quote(x, 60)}
+		var m *mimetype.MIME
+		if !c.Guard(key, func() any { return pl }, func() { m = mimetype.Detect(x) }) {
+			continue
+		}
+		_ = m
+		c.Eval(1)
+		c.Count("walks_under_concurrent_setlimit", 1)
+		for i, e := range st.trace {
+			want := len(x)
+			if e.limit > 0 && int(e.limit) < len(x) {
+				want = int(e.limit)
+			}
+			if e.n != want || e.limit != st.trace[0].limit || e.n != st.trace[0].n {
+				c.Violate("trace-args", key, fmt.Sprintf("while another goroutine changes the limit, detector call #%d (%s) was given a %d-byte header with limit %d; the first call of the walk had (%d bytes, limit %d); a %d-byte input examined under limit %d is %d bytes", i, st.t.Nodes[e.id].MIME, e.n, e.limit, st.trace[0].n, st.trace[0].limit, len(x), e.limit, want), pl)
+				break
+			}
+		}
+	}
+	close(stop)
+	<-done
+	mimetype.SetLimit(3072)
+}
+
 func c03Run(c *fw.Ctx, b fw.Batch) {
+	if b.Kind == "concurrent-limit" {
+		c03ConcurrentLimit(c, b.N)
+		return
+	}
 	r := c.Rand
 	seeds := lib.Seeds()
 	base := baseTree()
@@ -301,7 +362,7 @@ func init() {
 	fw.Register(&fw.Prop{
 		ID:    "C03",
 		Level: "exploration",
-		Rule: "per child: several trees (the built-in tree and trees enlarged by random Extend histories of 1-10 extensions attached to the root, to built-ins at every depth and to earlier extensions, with predicates: always true/false, prefix, contains, length- and limit-dependent, a copy of a built-in sibling's detector, accepts-the-empty-input); per tree 6000 detections: every seed, then greybox mutation (byte flips, truncation, splices of two seeds, prefix transplant; an input giving a new accept path is kept and mutated further) x limits {0, default, len, random} through Detect and through the un-sliced VerifMatch with a different process-wide limit. Every detector call is recorded (node, buffer pointer, len, limit, answer) and checked online against the first-match depth-first specification, then against the independent iterative walk. " +
+		Rule: "per child: several trees (the built-in tree and trees enlarged by random Extend histories of 1-10 extensions attached to the root, to built-ins at every depth and to earlier extensions, with predicates: always true/false, prefix, contains, length- and limit-dependent, a copy of a built-in sibling's detector, accepts-the-empty-input); per tree 6000 detections: every seed, then greybox mutation (byte flips, truncation, splices of two seeds, prefix transplant; an input giving a new accept path is kept and mutated further) x limits {0, default, len, random} through Detect and through the un-sliced VerifMatch with a different process-wide limit. Every detector call is recorded (node, buffer pointer, len, limit, answer) and checked online against the first-match depth-first specification, then against the independent iterative walk. In further rounds a second goroutine keeps calling SetLimit while the recorded detections run: every detector of a walk must see one (header, limit) pair and the header must be the first `limit` bytes for that very limit. " +
 			"non-trivial = reported path of depth >= 2 below the root or >= 2 siblings accepting at some level (measured with the model); distinct = distinct (sequence of accepting nodes, number of detector calls, entry).",
 		Assumptions: []string{
 			"leaf detector funcs are shared between the library and the model (only the walk is independent); their purity is C04's concern",
@@ -312,13 +373,18 @@ func init() {
 			if tier == "thorough" {
 				n = 300
 			}
-			return batches("trees", 16, n, 3000)
+			bs := batches("trees", 16, n, 3000)
+			return append(bs, batches("concurrent-limit", 2, n*2000, 3000)...)
 		},
 		Run: c03Run,
 		Replay: func(c *fw.Ctx, payload stdjson.RawMessage) {
 			var p c03Payload
 			if err := stdjson.Unmarshal(payload, &p); err != nil {
 				fmt.Println("bad payload:", err)
+				return
+			}
+			if p.Entry == "concurrent-limit" {
+				c03ConcurrentLimit(c, 20000)
 				return
 			}
 			st := c03Setup(p.Ops)
